@@ -2,7 +2,10 @@
    of the REAL lowerer (hook `verif_hooks::c03::dump`, field `nums`) is decoded, flattened to its
    control-flow graph and handed to the verified checker `RotoV.ValueMir.graphOk`
    (`matchIsOnCopy`; soundness: `RotoV.C02.match_bindings_read_the_switched_value_mir`).
-     → `ok;nodes=<n>;binds=<b>;discr=<d>` | `bad;var=<v>;node=<a>;nodes=<n>` | `undecodable` -/
+   and to the second verified checker `argumentsAreConsumed` (soundness:
+   `RotoV.C02.call_arguments_are_consumed_mir`).
+     → `ok;nodes=<n>;binds=<b>;discr=<d>;args=<k>` | `bad;var=<v>;node=<a>;nodes=<n>` |
+       `badarg;var=<v>;node=<a>;nodes=<n>` | `undecodable` -/
 import Driver.Util
 import RotoV.Model.ValueMir
 
@@ -17,9 +20,14 @@ def handle (args : List String) : String :=
     | none => "undecodable"
     | some it =>
       let g := flatten it
-      if matchIsOnCopy it then s!"ok;nodes={g.size};binds={countBinds g};discr={countDiscr g}"
-      else match firstOffence g with
+      if !matchIsOnCopy it then
+        match firstOffence g with
         | some (v, a) => s!"bad;var={v};node={a};nodes={g.size}"
         | none => s!"bad;var=?;node=?;nodes={g.size}"
+      else if !argumentsAreConsumed it then
+        match firstArgOffence g with
+        | some (v, a) => s!"badarg;var={v};node={a};nodes={g.size}"
+        | none => s!"badarg;var=?;node=?;nodes={g.size}"
+      else s!"ok;nodes={g.size};binds={countBinds g};discr={countDiscr g};args={countHands g}"
 
 end Driver.C02Mir
